@@ -114,7 +114,7 @@ SqDropFront(seq, res) ==
 
 \* k = the pressed key code, mm = get_mod_mask_for_cur_keys(cur_keys); returns [sq, L, out]
 SqPressLogic(sq0, k, mm, L, out0) ==
-  LET sqa == [sq0 EXCEPT !.ttl = sq0.timeout, !.raw = Append(@, k)]
+  LET sqa == [sq0 EXCEPT !.ttl = sq0.timeout + (IF Bug = "seq_timeout_late" THEN 1 ELSE 0), !.raw = Append(@, k)]
       base == CASE k = 54 -> 42 [] k = 126 -> 125 [] k = 97 -> 29 [] OTHER -> k
       pushed == base + mm                                   \* base | mod_mask
       out1 == IF sqa.mode = "VisibleBackspaced" /\ Bug # "seq_visible_hidden" THEN out0 \o SqDown(k)
@@ -202,7 +202,7 @@ SqTick(sq, out) ==
   IF ~sq.act THEN [sq |-> sq, out |-> out, panic |-> ""]
   ELSE IF sq.ttl = 0 THEN [sq |-> sq, out |-> out, panic |-> "sub-overflow:sequence.ticks_until_timeout"]
   ELSE LET sq1 == [sq EXCEPT !.ttl = @ - 1] IN
-       IF (IF Bug = "seq_timeout_late" THEN sq.ttl = 0 ELSE sq1.ttl = 0)
+       IF sq1.ttl = 0
        THEN LET c == SqCancel(sq1, out) IN [sq |-> c.sq, out |-> c.out, panic |-> ""]
        ELSE [sq |-> sq1, out |-> out, panic |-> ""]
 
